@@ -179,7 +179,9 @@ pub fn run(ctx: &mut Ctx) {
             }
         }
         // the connection meta as core.rs logs it, and refused SNIs
-        for s in [sni.clone(), format!("{}.unknown.example", sni_creds.clone().unwrap_or_else(|| "CANARYBADSNI".into()))] {
+        let c = sni_creds.clone().unwrap_or_else(|| "CANARYBADSNI".into());
+        // names nobody serves, with the credentials label in front of three, two and one further labels
+        for s in [sni.clone(), format!("{}.unknown.example", c), format!("{}.unknown.verif.example.org", c), format!("{}.unknownhost", c), format!("{}.localhos", c)] {
             match verif::tls_select(&core, &[b"h2".to_vec()], &s) {
                 Ok(m) => log::debug!("Connection meta: {}", m.debug),
                 Err(e) => log::debug!("Dropping connection due to error: {}", e),
